@@ -210,6 +210,20 @@ func (c *vconn) setDeadlines(kind string, t time.Time, r, w bool) error {
 			arg += " end"
 		}
 	}
+	if !expired(t) {
+		// a deadline call that is NOT the watcher's poison (clearing the deadlines, arming a timeout) may be a slow
+		// call too: the gate "sd0" parks its caller inside, before it takes effect
+		c.mu.Lock()
+		_, gated := c.gates["sd0"]
+		if gated {
+			c.logf(kind, "%s start (parked inside the call)", arg)
+		}
+		c.mu.Unlock()
+		if gated {
+			c.pass("sd0")
+			arg += " end"
+		}
+	}
 	c.mu.Lock()
 	defer c.mu.Unlock()
 	if c.noDeadlines {
